@@ -404,8 +404,25 @@ func (vc *FnVC) hget(st *state, key string) string {
 	if !vc.declared[base] {
 		vc.declared[base] = true
 		vc.emit(fmt.Sprintf("(declare-const %s %s)", base, vc.heapSort(key)))
+		vc.heapWF(base, vc.heapSort(key))
 	}
 	return base
+}
+
+// heapWF: type invariants of the values stored in an unconstrained heap array (slice headers are well-formed).
+func (vc *FnVC) heapWF(name, sort string) {
+	switch sort {
+	case "(Array Ref Slice)":
+		vc.emit(fmt.Sprintf("(assert (forall ((wr Ref)) (! (and (>= (slen (select %s wr)) 0) (>= (soff (select %s wr)) 0) (>= (scap (select %s wr)) (slen (select %s wr)))) :pattern ((select %s wr)))))", name, name, name, name, name))
+	case "Slice":
+		vc.emit(fmt.Sprintf("(assert (and (>= (slen %s) 0) (>= (soff %s) 0) (>= (scap %s) (slen %s))))", name, name, name, name))
+	}
+}
+
+func (vc *FnVC) freshHeap(prefix, sort string) string {
+	n := vc.fresh(prefix, sort)
+	vc.heapWF(n, sort)
+	return n
 }
 
 func (vc *FnVC) hset(st *state, key, term string) {
@@ -415,10 +432,31 @@ func (vc *FnVC) hset(st *state, key, term string) {
 var epochCounter int
 
 func (vc *FnVC) havocAll(st *state, reach string) {
+	oldA := vc.hget(st, "A")
 	epochCounter++
 	st.h = map[string]string{}
 	st.epoch = epochCounter
 	st.havocked = or(st.havocked, reach)
+	vc.allocGrows(oldA, vc.hget(st, "A"))
+}
+
+// allocGrows: allocation is monotone — whatever was allocated stays allocated.
+func (vc *FnVC) allocGrows(oldA, newA string) {
+	if oldA == newA {
+		return
+	}
+	vc.emit(fmt.Sprintf("(assert (forall ((ar Ref)) (! (=> (select %s ar) (select %s ar)) :pattern ((select %s ar)))))", oldA, newA, newA))
+}
+
+// havocKey replaces a heap by a fresh one (allocation stays monotone).
+func (vc *FnVC) havocKey(st *state, k string) {
+	if k == "A" {
+		oldA := vc.hget(st, "A")
+		st.h[k] = vc.fresh("h_A", vc.heapSort(k))
+		vc.allocGrows(oldA, st.h[k])
+		return
+	}
+	st.h[k] = vc.freshHeap("h_"+k, vc.heapSort(k))
 }
 
 // ---------- heap keys ----------
@@ -655,8 +693,20 @@ func (vc *FnVC) keysOfPlace(pl *place) []string {
 
 // wf emits the type invariants of a freshly obtained value.
 func (vc *FnVC) wf(guard, term string, t types.Type, st *state, depth int) {
+	if isTimeTime(t) {
+		// instants are counted from the zero time; instants before it are not modelled
+		vc.assume(guard, "(>= "+term+" 0)")
+		return
+	}
 	switch u := t.Underlying().(type) {
+	case *types.Pointer:
+		if st != nil && st.param == nil {
+			vc.assume(guard, fmt.Sprintf("(or (= %s nil) (select %s %s))", term, vc.hget(st, "A"), term))
+		}
 	case *types.Slice:
+		if st != nil && st.param == nil {
+			vc.assume(guard, fmt.Sprintf("(or (= (sbase %s) nil) (select %s (sbase %s)))", term, vc.hget(st, "A"), term))
+		}
 		vc.assume(guard, fmt.Sprintf("(and (>= (slen %s) 0) (>= (soff %s) 0) (>= (scap %s) (slen %s)) (=> (= (sbase %s) nil) (= (scap %s) 0)))", term, term, term, term, term, term))
 	case *types.Basic:
 		if u.Info()&types.IsUnsigned != 0 {
@@ -869,7 +919,15 @@ func (w *World) verifyFunction(fn *ssa.Function, c *Contract) (vc *FnVC, err err
 	// exit
 	exitReach, results, exitSt := f.mergeReturns()
 	if exitSt != nil {
-		env := f.env(exitSt, entry)
+		postSt := exitSt
+		if !declaresAlloc(c) {
+			// a function that does not declare allocation may only speak about objects that existed at entry:
+			// allocated(x) in its postconditions refers to the entry allocation (sound to apply at callers whose
+			// allocation state is left unchanged by the call)
+			postSt = exitSt.clone()
+			postSt.h["A"] = vc.hget(entry, "A")
+		}
+		env := f.env(postSt, entry)
 		for i, rn := range c.Results {
 			if i < len(results) {
 				env.vars[rn] = results[i]
@@ -979,6 +1037,13 @@ func (vc *FnVC) frameObligations(f *frame, guard string, st0, st1 *state, mods [
 			}
 		}
 	}
+	if atExit && f.c != nil {
+		for _, r := range f.c.Records {
+			if k, _, ok := vc.ghostKey(r.Ghost); ok {
+				whole[k] = true
+			}
+		}
+	}
 	if star {
 		return
 	}
@@ -995,7 +1060,7 @@ func (vc *FnVC) frameObligations(f *frame, guard string, st0, st1 *state, mods [
 	}
 	sort.Strings(ks)
 	for _, k := range ks {
-		if k == "A" || whole[k] {
+		if k == "A" || whole[k] || strings.HasPrefix(k, "R|") {
 			continue
 		}
 		t1 := st1.h[k]
@@ -1378,6 +1443,11 @@ func (f *frame) scanCallMods(li *loopInfo, call ssa.CallInstruction) {
 		li.modAll = true
 		return
 	}
+	for _, r := range c.Records {
+		if k, _, ok := vc.ghostKey(r.Ghost); ok {
+			li.modKeys[k] = true
+		}
+	}
 	if c.Pure || c.NoEffect {
 		return
 	}
@@ -1418,8 +1488,22 @@ func (f *frame) scanCallMods(li *loopInfo, call ssa.CallInstruction) {
 			}
 		}
 	}
-	// ensures clauses mentioning ghosts via modifies only; fresh results may allocate
-	li.modKeys["A"] = true
+	if declaresAlloc(c) {
+		li.modKeys["A"] = true
+	}
+}
+
+// declaresAlloc: the contract says the function may allocate objects that are visible to the caller.
+func declaresAlloc(c *Contract) bool {
+	if c.FreshRes {
+		return true
+	}
+	for _, m := range c.Modifies {
+		if m.Star || strings.ReplaceAll(m.Heap, " ", "") == "alloc" {
+			return true
+		}
+	}
+	return false
 }
 
 func (f *frame) enterLoop(li *loopInfo, b *ssa.BasicBlock, preds []*ssa.BasicBlock, conds []string, sts []*state, reach string) *state {
@@ -1529,25 +1613,29 @@ func (f *frame) enterLoop(li *loopInfo, b *ssa.BasicBlock, preds []*ssa.BasicBlo
 		sort.Strings(ks)
 		for _, k := range ks {
 			so := vc.heapSort(k)
-			if !star && !whole[k] && len(single[k]) > 0 && strings.HasPrefix(so, "(Array Ref ") {
-				// only the listed locations may differ from the entry state of the function/loop
-				t := vc.hget(pre, k)
-				inner := so[len("(Array Ref ") : len(so)-1]
-				for _, r := range single[k] {
-					t = "(store " + t + " " + r + " " + vc.fresh("lh", inner) + ")"
+			if !star && !whole[k] && k != "A" && hasLoopMod && strings.HasPrefix(so, "(Array Ref ") {
+				// The frame says: only the listed locations, and objects allocated after the reference
+				// state, may differ from the reference state (function entry, or loop entry when the loop
+				// has its own modifies clause).  The back-edge frame obligation checks exactly this.
+				ref := f.oldSt
+				if _, own := f.c.LoopMod[li.ordinal]; own {
+					ref = pre
 				}
-				cur.h[k] = vc.define("h_"+k, so, t)
-			} else if !star && !whole[k] && len(single[k]) == 0 && k != "A" && hasLoopMod {
-				// key is assigned syntactically in the loop but the frame says it is not modified:
-				// keep it (the back-edge frame obligation checks this)
+				h0 := vc.hget(ref, k)
+				a0 := vc.hget(ref, "A")
+				nh := vc.freshHeap("h_"+k, so)
+				var conds []string
+				conds = append(conds, "(select "+a0+" fr)")
+				for _, r := range single[k] {
+					conds = append(conds, not(eq("fr", r)))
+				}
+				vc.emit(fmt.Sprintf("(assert (forall ((fr Ref)) (! (=> %s (= (select %s fr) (select %s fr))) :pattern ((select %s fr)))))", and(conds...), nh, h0, nh))
+				cur.h[k] = nh
+			} else if !star && !whole[k] && k != "A" && hasLoopMod && !strings.HasPrefix(k, "R|") {
+				// scalar heap (ghost / global) that the frame declares unmodified: keep it
 				continue
 			} else {
-				cur.h[k] = vc.fresh("h_"+k, so)
-				if k == "A" {
-					// allocation only grows
-					r := vc.fresh("ar", "Ref")
-					_ = r
-				}
+				vc.havocKey(cur, k)
 			}
 		}
 		li.headSt = cur.clone()
